@@ -363,6 +363,32 @@ def impl_roundtrip(lay, api, a):
     d = m2.asdict()
     names = [f.name for f in type(m2).fields()]
     out['decoded'] = ('Ok', type(m2).__name__, [(n, d[n]) for n in names], m2)
+    # result independence: what the library handed out belongs to the caller.  Overwrite it (every field of the decoded
+    # message, the list of sentences) and do the SAME round trip again: it must give the same sentences and field values
+    # (a cache that hands out its own mutable objects shows only here)
+    try:
+        first = list(sentences)
+        out['sentences'] = first
+        for n in names:
+            try:
+                setattr(m2, n, None)
+            except Exception:      # noqa: BLE001
+                pass
+        if isinstance(sentences, list):
+            sentences.clear()
+        again = pyais.encode_msg(getattr(M, lay.cls).create(**a)) if api == 'create+encode_msg' else pyais.encode_dict(dict(data))
+        if list(again) != first:
+            out['aliasing'] = f'the same message encoded a second time gives {list(again)[:2]!r}, the first time {first[:2]!r}'
+        else:
+            m3 = pyais.decode(*again)
+            d3 = m3.asdict()
+            diff = [n for n in names if repr(d3.get(n)) != repr(d[n])]
+            if type(m3) is not type(m2) or diff:
+                out['aliasing'] = (f'decoding the same sentences a second time (after the caller overwrote the first result) gives '
+                                   f'{diff[0] if diff else "class"} = {d3.get(diff[0]) if diff else type(m3).__name__!r}, '
+                                   f'the first time {d[diff[0]] if diff else type(m2).__name__!r}')
+    except Exception as e:      # noqa: BLE001
+        out['aliasing'] = f'the second, identical round trip raised {type(e).__name__}: {e}'
     return out
 
 
